@@ -80,7 +80,15 @@ def run_request(req, folder, cleanup=False):
     try:
         kw = {}
         if ex is not None:
-            kw["executor"] = ex
+            # the dict form (`{"": ex}` / `{output: ex, "": ex}`) must be refused with parallel=False exactly like a bare executor
+            form = req.get("executor")
+            if form == "dict-default":
+                kw["executor"] = {"": ex}
+            elif form == "dict-output":
+                first = req["desc"]["funcs"][0]["outputs"]
+                kw["executor"] = {(first[0] if len(first) == 1 else tuple(first)): ex, "": ex}
+            else:
+                kw["executor"] = ex
         mapgen.quiet(p.map, py_inputs(req["desc"]), run_folder=folder, internal_shapes=mapgen.internal_shapes_arg(req["desc"]),
                      parallel=bool(req.get("parallel", False)), storage=req["storage"], cleanup=cleanup, **kw)
     except Exception as e:  # noqa: BLE001
